@@ -9,6 +9,7 @@ arbitrary commutative ring (ℤ, ℚ, ℝ, ℂ, …).
 -/
 import OdlModel.Lemmas.ResizeSpec
 import OdlModel.Lemmas.ResizeOp
+import Mathlib.Tactic.FieldSimp
 
 set_option linter.unusedVariables false
 set_option linter.unusedTactic false
@@ -296,29 +297,37 @@ theorem C16.range_covers_domain (a : Axis F) (nNew : Nat) (off : Option Int)
 end ordered
 
 section weighted
-variable {K : Type} [CommRing K] [DecidableEq K]
+variable {F : Type} [Field F] [DecidableEq F]
 
-/-- **Adjoint identity in the weighted inner products** (`_partial`: uniformly weighted spaces;
-see `C16.weighted_adjoint_bdry_fails`).  Domain and range carry the SAME constant cell-volume
-weight `w` (cell sides are unchanged, `C16.range_cell_unchanged`), so the unscaled transpose
-returned by `ResizingOperator.adjoint` satisfies `⟨R x, y⟩_w = ⟨x, Rᵀ y⟩_w`.
-FULL STATEMENT (fails in the code): the same with the boundary-cell fractions that
-`DiscretizedSpace._inner` applies when `nodes_on_bdry=True`. -/
-theorem C16.weighted_adjoint_partial (mode : Mode) (n m off : Nat) (x y : Nat → K) (w : K)
-    (h : Admissible mode n m off) :
-    ∃ r rt, resize1d mode .forward n m off 0 x = .ok r ∧
-      resize1d mode .adjoint m n off 0 y = .ok rt ∧
-      ∑ i ∈ range m, w * (y i * r i) = ∑ j ∈ range n, w * (x j * rt j) := by
-  obtain ⟨r, rt, h1, h2, h3⟩ := C16.adjoint_transpose mode n m off x y h
-  exact ⟨r, rt, h1, h2, by rw [← mul_sum, ← mul_sum, h3]⟩
+/-- **Adjoint identity in the weighted inner products.**  Let the range and the domain carry
+arbitrary diagonal weights `wr`, `wd` (`wd` nowhere zero) — in the code: the common cell volume
+times the boundary-cell fractions of `DiscretizedSpace.inner`, which are `1/2` for nodes on the
+boundary.  Then for every mode, all sizes, admissible offsets and contents,
+`ResizingOperator.adjoint` (scale by `wr`, transpose-resize, divide by `wd`) satisfies
+`⟨R x, y⟩_wr = ⟨x, R* y⟩_wd`. -/
+theorem C16.weighted_adjoint (mode : Mode) (n m off : Nat) (x y wr wd : Nat → F)
+    (h : Admissible mode n m off) (hwd : ∀ j < n, wd j ≠ 0) :
+    ∃ r ra, resize1d mode .forward n m off 0 x = .ok r ∧
+      opAdjoint1d mode m n off wr wd y = .ok ra ∧
+      ∑ i ∈ range m, wr i * (r i * y i) = ∑ j ∈ range n, wd j * (x j * ra j) := by
+  obtain ⟨r, rt, h1, h2, h3⟩ := C16.adjoint_transpose mode n m off x (fun i => wr i * y i) h
+  refine ⟨r, fun j => rt j / wd j, h1, by simp only [opAdjoint1d, h2], ?_⟩
+  have e1 : ∑ i ∈ range m, wr i * (r i * y i) = ∑ i ∈ range m, wr i * y i * r i :=
+    sum_congr rfl (fun i _ => by ring)
+  have e2 : ∑ j ∈ range n, wd j * (x j * (rt j / wd j)) = ∑ j ∈ range n, x j * rt j :=
+    sum_congr rfl (fun j hj => by
+      have := hwd j (mem_range.1 hj)
+      field_simp)
+  rw [e1, e2, h3]
 
 end weighted
 
-/-- **Defect (finding C16-F2), proved on the model of the code as it is.**  With half-weight
-boundary cells in the domain (`nodes_on_bdry=True`: weights `(1,2,2,1)/2·h` against `(2,2)/2·h`
-in the range) the plain transpose is not the adjoint: cropping 4 → 2 entries at offset 0 with
-`x = (1,2,3,4)`, `y = (5,6)` gives `34 ≠ 29` (times `h/2`). -/
-theorem C16.weighted_adjoint_bdry_fails :
+/-- **Sensitivity (the repaired defect C16-F2, about the OLD adjoint = plain transpose).**  With
+half-weight boundary cells in the domain (`nodes_on_bdry=True`: weights `(1,2,2,1)/2·h` against
+`(2,2)/2·h` in the range) the unscaled transpose `resize_array(..., direction='adjoint')` is not
+the adjoint: cropping 4 → 2 entries at offset 0 with `x = (1,2,3,4)`, `y = (5,6)` gives
+`34 ≠ 29` (times `h/2`). -/
+theorem C16.plain_transpose_not_adjoint_with_bdry_fractions :
     ∃ r rt, resize1d .constant .forward 4 2 0 (0 : Int) (fun i => [1, 2, 3, 4].getD i 0) = .ok r ∧
       resize1d .constant .adjoint 2 4 0 (0 : Int) (fun i => [5, 6].getD i 0) = .ok rt ∧
       ∑ i ∈ range 2, ([2, 2].getD i 0) * ([5, 6].getD i 0 * r i) ≠
